@@ -787,6 +787,8 @@ class Curve(BaseCurve):
         if nodes is None:
             nodes = self.knotvector.knots
         nodes = tuple(set(nodes) - set(self.knotvector.limits))
+        for knot in nodes:  # Refuse an invalid node before anything is removed
+            float(knot)
         for knot in nodes:
             try:
                 while True:
